@@ -211,6 +211,16 @@ type ShelleyBlockHeader struct {
 	Body      ShelleyBlockHeaderBody
 	Signature []byte
 }
+
+// MarshalCBOR returns the stored CBOR of a decoded ShelleyBlockHeader so that
+// re-serialising it reproduces the wire bytes; an object built in memory is
+// encoded from its fields
+func (x *ShelleyBlockHeader) MarshalCBOR() ([]byte, error) {
+	if x.Cbor() != nil {
+		return x.Cbor(), nil
+	}
+	return cbor.EncodeGeneric(x)
+}
 type ShelleyBlockHeaderBody struct {
 	cbor.StructAsArray
 	cbor.DecodeStoreCbor
@@ -305,6 +315,16 @@ type ShelleyTransactionBody struct {
 	TxWithdrawals  map[*common.Address]uint64      `cbor:"5,keyasint,omitempty"`
 	Update         *ShelleyTransactionPparamUpdate `cbor:"6,keyasint,omitempty"`
 	TxAuxDataHash  *common.Blake2b256              `cbor:"7,keyasint,omitempty"`
+}
+
+// MarshalCBOR returns the stored CBOR of a decoded ShelleyTransactionBody so that
+// re-serialising it reproduces the wire bytes; an object built in memory is
+// encoded from its fields
+func (x *ShelleyTransactionBody) MarshalCBOR() ([]byte, error) {
+	if x.Cbor() != nil {
+		return x.Cbor(), nil
+	}
+	return cbor.EncodeGeneric(x)
 }
 
 func (b *ShelleyTransactionBody) UnmarshalCBOR(cborData []byte) error {
@@ -584,6 +604,16 @@ type ShelleyTransactionWitnessSet struct {
 	VkeyWitnesses      []common.VkeyWitness      `cbor:"0,keyasint,omitempty"`
 	WsNativeScripts    []common.NativeScript     `cbor:"1,keyasint,omitempty"`
 	BootstrapWitnesses []common.BootstrapWitness `cbor:"2,keyasint,omitempty"`
+}
+
+// MarshalCBOR returns the stored CBOR of a decoded ShelleyTransactionWitnessSet so that
+// re-serialising it reproduces the wire bytes; an object built in memory is
+// encoded from its fields
+func (x *ShelleyTransactionWitnessSet) MarshalCBOR() ([]byte, error) {
+	if x.Cbor() != nil {
+		return x.Cbor(), nil
+	}
+	return cbor.EncodeGeneric(x)
 }
 
 func (w *ShelleyTransactionWitnessSet) UnmarshalCBOR(cborData []byte) error {
